@@ -74,7 +74,9 @@ def gen_history(rng, thorough):
 
 
 def build_receipt_pdu(seqnum, mid, err, how):
-    text = f'id:{mid if how in ("text", "both") else ""} sub:001 dlvrd:001 submit date:2401011200 done date:2401011201 stat:{"DELIVRD" if err == 0 else "UNDELIV"} err:{err:03d} Text:hello'
+    # the echoed beginning of the message text may itself look like receipt fields (it is free text up to the end)
+    echoed = ['hello', 'hello', f'Order id:{mid + 1} shipped', f'ref id:{mid - 1}', 'x err:999 stat:FAILED', 'ID:9999 y', f'a:b id:{mid + 2}'][(seqnum * 7 + mid) % 7]
+    text = f'id:{mid if how in ("text", "both") else ""} sub:001 dlvrd:001 submit date:2401011200 done date:2401011201 stat:{"DELIVRD" if err == 0 else "UNDELIV"} err:{err:03d} Text:{echoed}'
     if how == 'none':
         text = 'sub:001 dlvrd:001 stat:DELIVRD err:000 Text:x'
     tlvs = b''
